@@ -4,6 +4,7 @@ import (
 	"context"
 	"errors"
 	"fmt"
+	"io"
 	"strings"
 	"testing"
 	"testing/synctest"
@@ -38,10 +39,14 @@ type c14TypedCase struct {
 	// codec: nothing is ever sent) | "unmarshal-fails" (the first response message
 	// is refused by the client's codec).
 	Codec string `json:"codec,omitempty"`
+	// URL: "" the usual one | "bad-fragment": a URL that NewClient accepts and
+	// http.NewRequestWithContext rejects (a fragment with a bad escape), so no
+	// request can ever be made.
+	URL string `json:"url,omitempty"`
 }
 
 func (k c14TypedCase) key() string {
-	return fmt.Sprintf("typed/%s/h%d/%s/%s/take%d/%s", k.Proto, k.HTTP, k.Kind, k.Handler, k.Take, k.Codec)
+	return fmt.Sprintf("typed/%s/h%d/%s/%s/take%d/%s%s", k.Proto, k.HTTP, k.Kind, k.Handler, k.Take, k.Codec, k.URL)
 }
 
 // markerCodec is the binary codec except that it refuses to marshal the
@@ -95,6 +100,9 @@ func c14TypedCheck(c *ev.Collector, k c14TypedCase) {
 		copts = append(copts, connect.WithCodec(markerCodec{}))
 	}
 	cl := NewClient(tr, Cfg{Proto: k.Proto, Comp: CompNone, Kind: k.Kind, HTTP: k.HTTP}, copts...)
+	if k.URL == "bad-fragment" {
+		cl = connect.NewClient[BV, BV](tr, BaseURL+Procedure+"#section?q=100%", append(Cfg{Proto: k.Proto, Comp: CompNone}.ClientOptions(), copts...)...)
+	}
 	reqMsg := func() *BV {
 		if k.Codec == "marshal-fails" {
 			return &BV{Value: []byte("FAIL-MARSHAL")}
@@ -112,6 +120,20 @@ func c14TypedCheck(c *ev.Collector, k c14TypedCase) {
 			s := cl.CallClientStream(ctx)
 			_ = s.Send(reqMsg())
 			_, callErr = s.CloseAndReceive()
+		case KBidi:
+			s := cl.CallBidiStream(ctx)
+			_ = s.Send(reqMsg())
+			_ = s.CloseRequest()
+			for {
+				if _, err := s.Receive(); err != nil {
+					if !errors.Is(err, io.EOF) {
+						callErr = err
+					}
+					break
+				}
+				received++
+			}
+			closeErr = s.CloseResponse()
 		case KServer:
 			s, err := cl.CallServerStream(ctx, connect.NewRequest(reqMsg()))
 			if err != nil {
@@ -195,6 +217,12 @@ func c14TypedCases() []c14TypedCase {
 					}
 				}
 			}
+		}
+	}
+	// no request can be constructed at all: every kind of call must still return
+	for _, p := range AllProtos {
+		for _, kind := range AllKinds {
+			out = append(out, c14TypedCase{Typed: true, Proto: p, HTTP: 2, Kind: kind, Handler: "ok1", Take: -1, URL: "bad-fragment"})
 		}
 	}
 	return out
